@@ -25,8 +25,16 @@ class World:
         self.switches = 0
         self.make_backend_override = None
         self.after_run = None
+        self.live = {}              # client name -> live process (Proc, repo, backend)
+        self.live_renew = None      # hook: the adapter object of a live process starts its next command
+
+    def end_all_live(self):
+        for name in sorted(self.live):
+            self.live[name][0].close()
+        self.live = {}
 
     def close(self):
+        self.end_all_live()
         if self.dir is not None:
             world.remove_scratch(self.dir)
 
@@ -52,9 +60,12 @@ class World:
             return b
         return mk
 
-    def run(self, client, action, opts=None, *, unlock=True, profile=None, state=None, keep_log=False):
-        r = world.run_process(self.env, world.session(self.factory(profile, state), client, action, unlock=unlock),
-                              opts, keep_log=keep_log)
+    def run(self, client, action, opts=None, *, unlock=True, profile=None, state=None, keep_log=False, live=False):
+        if live and state is None and unlock:
+            r = self._run_live(client, action, opts, profile)
+        else:
+            r = world.run_process(self.env, world.session(self.factory(profile, state), client, action, unlock=unlock),
+                                  opts, keep_log=keep_log)
         (state if state is not None else self.state).frozen = False   # durable state outlives the process
         if self.after_run is not None:
             self.after_run(r)
@@ -67,6 +78,56 @@ class World:
             for k, v in b.fired.items():
                 self.fired[k] = self.fired.get(k, 0) + v
         return r
+
+    def _run_live(self, client, action, opts, profile):
+        """The command runs inside the client's long-lived process: same Repository object, same
+        adapter object, same loop and threads as its previous commands."""
+        profile = profile or self.profile()
+        ent = self.live.get(client.name)
+        if ent is None:
+            proc = world.Proc(self.env, opts)
+            holder = {}
+
+            async def first(res):
+                import replicat.repository as R
+                backend = self.factory(profile)()
+                repo = R.Repository(backend, concurrent=client.concurrent, quiet=True, cache_directory=client.cache_dir)
+                holder['repo'], holder['backend'] = repo, backend
+                res.repo, res.backend = repo, backend
+                try:
+                    await repo.unlock(password=client.password, key=client.key)
+                    holder['unlocked'] = True
+                    return await action(repo)
+                finally:
+                    res.max_inflight = getattr(backend, 'max_inflight_slot', None)
+            r = proc.run(first)
+            if not proc.dead and holder.get('unlocked'):
+                self.live[client.name] = (proc, holder['repo'], holder['backend'])
+            elif not proc.dead:
+                proc.close()
+            return r
+        proc, repo, backend = ent
+        if hasattr(backend, 'new_command'):
+            backend.new_command(profile)
+        if self.live_renew is not None:
+            self.live_renew(backend)
+        self.last_backend = backend
+
+        async def nxt(res):
+            res.repo, res.backend = repo, backend
+            try:
+                return await action(repo)
+            finally:
+                res.max_inflight = getattr(backend, 'max_inflight_slot', None)
+        r = proc.run(nxt)
+        if proc.dead:
+            del self.live[client.name]
+        return r
+
+    def end_live(self, client):
+        ent = self.live.pop(client.name, None)
+        if ent is not None:
+            ent[0].close()
 
     def digest(self):
         import hashlib
